@@ -41,3 +41,7 @@ impl DataBlocked {
 }
 
 simple_frame_codec!(DataBlocked { data_limit }, data_blocked_tag!());
+
+#[cfg(all(aws_s2n_quic_verif, test))]
+#[path = "/verif/harness/core/frame_data_blocked.rs"]
+mod verif;
